@@ -97,7 +97,9 @@ def gen_cases(tier, seed):
         n = int(rng.integers(2, 6))
         S = [np.diag([n, n, n]).tolist(), np.diag([n, n - 1, n + 1]).tolist(), [[n, 1, 0], [0, n, 0], [0, 0, n]], [[-n, n, n], [n, -n, n], [n, n, -n]]][int(rng.integers(4))]
         cases.append({"kind": "tolerance", "crystal": {"name": name, "order": ["asis", "random"][int(rng.integers(2))], "order_seed": int(rng.integers(1000))}, "pm": pm, "S": S,
-                      "symprec": float([1e-5, 1e-3, 1e-2, 5e-2, 1e-7][int(rng.integers(5))]), "_cost": 20})
+                      "symprec": float([1e-5, 1e-3, 1e-2, 5e-2, 1e-7][int(rng.integers(5))]), "_cost": 20,
+                      # unit-cell atoms displaced independently by up to 0.3 symprec (a relaxed / rounded conventional cell): still tileable within the tolerance
+                      "noise": float([0.0, 0.3][int(rng.integers(2))]), "nseed": int(rng.integers(10 ** 6))})
     cases.append({"kind": "reject"})
     return cases
 
@@ -245,6 +247,12 @@ def run_case(c):
         if len(unit) * abs(int(round(np.linalg.det(S)))) > 260:
             S = np.diag([3, 3, 3])
         sp = c["symprec"]
+        if c.get("noise", 0) > 0 and sp >= 1e-5:
+            nrng = np.random.default_rng(c.get("nseed", 0))
+            dc = nrng.standard_normal((len(unit), 3))
+            dc *= c["noise"] * sp * nrng.uniform(0.3, 1.0, (len(unit), 1)) / np.linalg.norm(dc, axis=1)[:, None]
+            unit.scaled_positions = np.array(unit.scaled_positions) + dc @ np.linalg.inv(np.array(unit.cell))
+            obs["tolerance_noisy_cells"] = 1
         pmu = np.array(get_primitive_matrix(c["pm"]), float)
         nprim = int(round(abs(np.linalg.det(S)) / abs(np.linalg.det(pmu))))
         feat = dict(symprec=sp, matrix=S.tolist(), pm=c["pm"], n_primitive_cells=nprim, symprec_times_cells=float(sp * nprim))
@@ -264,7 +272,7 @@ def run_case(c):
             obs["tolerance_built"] = obs.get("tolerance_built", 0) + 1
             for kind, msg in K.supercell_tiling_problems(sc, unit, S)[:1]:
                 bad("tiling_supercell_" + kind, msg, route=route, **feat)
-            for kind, msg in K.primitive_tiling_problems(pr, sc, pmat)[:1]:
+            for kind, msg in K.primitive_tiling_problems(pr, sc, pmat, symprec=max(sp, 1e-5))[:1]:
                 bad("tiling_primitive_" + kind, msg, route=route, **feat)
         obs["tolerance_symprec_%g" % sp] = 1
         keys.append("tol|%s|%s|%s|%g" % (c["crystal"]["name"], S.tolist(), c["pm"], sp))
